@@ -11,8 +11,9 @@ import (
 // Item is one line of the growing SMT context of a function: a declaration /
 // definition, or an assumption (a Bool formula).
 type Item struct {
-	Decl bool
-	Text string
+	Decl  bool
+	Text  string
+	Owner string // a definitional axiom about this fresh constant: needed only where the constant is (smtText slices)
 }
 
 // Oblig is one proof obligation.
@@ -48,6 +49,7 @@ type VC struct {
 	notes        []string // things abstracted (havocked callees, unsupported instructions)
 	inlined      map[string]bool
 	assumed      map[string]bool // contracts of callees that were used (name -> trusted?)
+	assumedWF    map[string]bool // repo callees without contract whose results were assumed well-formed
 	uses         map[string]bool // spec modules
 	siteN        map[string]int
 	fname        string
@@ -58,6 +60,9 @@ type VC struct {
 	frameTargets []frameTarget
 	frameTags    []string
 	nreq         int
+	subCache     map[string]Term
+	stores       map[string]storeRec
+	sweep        bool // zero-annotation safety sweep: implicit assumptions on the inputs (verify.go)
 }
 
 func (vc *VC) fresh(prefix string) string {
@@ -103,6 +108,61 @@ func (vc *VC) assume(t Term) {
 		return
 	}
 	vc.items = append(vc.items, Item{Text: t.S})
+}
+
+// storeRec remembers how a heap component term was built, so that a read at
+// the location that was just written is answered syntactically (read over
+// write) instead of being left to the solver's array theory.
+type storeRec struct {
+	idx  string // object (or map) written
+	idx2 string // map key, for two-level stores
+	val  Term
+}
+
+// storeTerm builds (store old idx val), names it, and records it.
+func (vc *VC) storeTerm(prefix string, old Term, idx Term, val Term) Term {
+	t := vc.define(prefix, T(old.Sort, "(store %s %s %s)", old.S, idx.S, val.S))
+	if vc.stores == nil {
+		vc.stores = map[string]storeRec{}
+	}
+	vc.stores[t.S] = storeRec{idx: idx.S, val: val}
+	return t
+}
+
+// store2Term builds the update of key k of map object m in a two-level component.
+func (vc *VC) store2Term(prefix string, old Term, m, k Term, val Term) Term {
+	t := vc.define(prefix, T(old.Sort, "(store %s %s (store (select %s %s) %s %s))", old.S, m.S, old.S, m.S, k.S, val.S))
+	if vc.stores == nil {
+		vc.stores = map[string]storeRec{}
+	}
+	vc.stores[t.S] = storeRec{idx: m.S, idx2: k.S, val: val}
+	return t
+}
+
+// sel is (select comp idx) with read-over-write on the most recent store.
+func (vc *VC) sel(comp Term, idx Term, sort string) Term {
+	if r, ok := vc.stores[comp.S]; ok && r.idx2 == "" && r.idx == idx.S {
+		return r.val
+	}
+	return T(sort, "(select %s %s)", comp.S, idx.S)
+}
+
+// sel2 is (select (select comp m) k) with read-over-write on the most recent store.
+func (vc *VC) sel2(comp Term, m, k Term, sort string) Term {
+	if r, ok := vc.stores[comp.S]; ok && r.idx2 != "" && r.idx == m.S && r.idx2 == k.S {
+		return r.val
+	}
+	return T(sort, "(select (select %s %s) %s)", comp.S, m.S, k.S)
+}
+
+// assumeOwned records a (quantified) axiom that only defines the fresh constant
+// owner; a query in which owner does not occur, directly or through the other
+// formulas of the query, is printed without it.
+func (vc *VC) assumeOwned(owner Term, t Term) {
+	if t.S == "true" {
+		return
+	}
+	vc.items = append(vc.items, Item{Text: t.S, Owner: owner.S})
 }
 
 func (vc *VC) note(format string, args ...interface{}) {
@@ -175,6 +235,16 @@ func (vc *VC) entryState() *State {
 	return s
 }
 
+// docsWF: in the safety sweep every document in the heap that the function did
+// not write itself (entry heap, heap after a havoc) is a well-formed BSON document.
+func (vc *VC) docsWF(key string, comp Term) {
+	if !vc.sweep || key != "D:Seq_S_primitive_E" {
+		return
+	}
+	vc.uses["wf"] = true
+	vc.assumeOwned(comp, T(sBool, "(forall ((r!q Int)) (! (wfVal (VDoc (select %s r!q))) :pattern ((select %s r!q))))", comp.S, comp.S))
+}
+
 func (s *State) derive() *State {
 	return &State{vc: s.vc, kind: stSeq, m: map[string]Term{}, parent: s, defers: s.defers, now: s.now, dunk: s.dunk}
 }
@@ -239,6 +309,7 @@ func (s *State) get(key string) Term {
 	switch s.kind {
 	case stEntry:
 		res = s.vc.declare(smtName(key)+"!0", s.vc.compSort(key))
+		s.vc.docsWF(key, res)
 	case stSeq:
 		res = s.parent.get(key)
 	case stHavoc:
@@ -253,10 +324,11 @@ func (s *State) get(key string) Term {
 		}
 		if hit {
 			res = s.vc.declare(smtName(key)+"!"+s.id, s.vc.compSort(key))
+			s.vc.docsWF(key, res)
 			if s.since != nil {
 				// frame: objects allocated before the threshold are unchanged
 				old := s.parent.get(key)
-				s.vc.assume(T(sBool, "(forall ((r!q Int)) (! (=> (< (alloc r!q) %s) (= (select %s r!q) (select %s r!q))) :pattern ((select %s r!q))))",
+				s.vc.assumeOwned(res, T(sBool, "(forall ((r!q Int)) (! (=> (< (alloc r!q) %s) (= (select %s r!q) (select %s r!q))) :pattern ((select %s r!q))))",
 					s.since.S, res.S, old.S, res.S))
 			}
 		} else {
